@@ -1493,7 +1493,7 @@ def run(ctx):
     ctx.assumptions += ['numpy Generator: deepcopy yields an equal independent stream; equal states give equal draws',
                         'float arithmetic on the generated dyadic pixel sizes, velocities and times is exact',
                         'FastFourierTransform / MatrixFourierTransform honour the zero of the grid they are built on (C01), used by the displaced-grid oracle']
-    n = ctx.scale(300, 8000)
+    n = ctx.scale(300, 6000)
     cases = [copy.deepcopy(c) for c in DIRECTED]
     big = ctx.tier == 'thorough'
     for i in range(n):
@@ -1510,11 +1510,11 @@ def run(ctx):
         else:
             cases.append(gen_noise_case(ctx.rng, big and i % 3 == 0))
     cases += [copy.deepcopy(c) for c in c15_atmos.DIRECTED]
-    for i in range(ctx.scale(30, 400)):
+    for i in range(ctx.scale(30, 300)):
         cases.append(c15_atmos.gen_atmos_case(ctx.rng, big and i % 3 == 0))
-    for i in range(ctx.scale(24, 300)):
+    for i in range(ctx.scale(24, 200)):
         cases.append(c15_atmos.gen_stale_case(ctx.rng, big and i % 3 == 0))
-    for i in range(ctx.scale(20, 240)):
+    for i in range(ctx.scale(20, 160)):
         cases.append(gen_sametime_case(ctx.rng, 'finite' if i % 2 == 0 else 'infinite', big and i % 3 == 0))
     batch = []
     for case in cases:
